@@ -5,6 +5,7 @@ import Ahbicht.Model.Ahb
 import Ahbicht.Model.Fc
 import Ahbicht.Model.AhbEval
 import Ahbicht.Model.Resolve
+import Ahbicht.Model.Extract
 /-!
 # line-protocol driver: one JSON request per line on stdin, one JSON answer per line on stdout
 -/
@@ -149,6 +150,30 @@ def handle (j : Json) : Except String Json := do
     | .error .valueError => pure (Json.mkObj [("err", "ValueError")])
     | .error .notImplemented => pure (Json.mkObj [("err", "NotImplementedError")])
     | .error .syntaxError => pure (Json.mkObj [("err", "SyntaxError")])
+  | "nodeType" =>
+    let k ← getStr j "key"
+    let name := match nodeType k.toList with
+      | some .rc => "REQUIREMENT_CONSTRAINT" | some .hint => "HINT" | some .fc => "FORMAT_CONSTRAINT"
+      | some .repeatability => "REPEATABILITY_CONSTRAINT" | some .package => "PACKAGE" | none => "ValueError"
+    pure (Json.mkObj [("type", name)])
+  | "extract" =>
+    let t ← exprOfJson (← j.getObjVal? "tree")
+    let strs (l : List (List Char)) : Json := Json.arr (l.map str).toArray
+    match extractRaw t with
+    | none => pure (Json.mkObj [("err", "ValueError")])
+    | some x =>
+      let y := if (j.getObjValAs? Bool "sanitize").toOption.getD true then x.sanitize else x
+      pure (Json.mkObj [("hint", strs y.hint), ("fc", strs y.fc), ("rc", strs y.rc), ("pkg", strs y.pkg), ("time", strs y.time)])
+  | "gen" =>
+    let getKeys (f : String) : Except String (List (List Char)) := do
+      let a ← (← j.getObjVal? f).getArr?
+      a.toList.mapM fun x => do pure (← x.getStr?).toList
+    let fcK ← getKeys "fc"
+    let rcK ← getKeys "rc"
+    let res := genResults fcK rcK
+    pure (Json.mkObj [("results", Json.arr (res.map fun fr =>
+      Json.arr #[Json.arr (fr.1.map fun kv => Json.arr #[str kv.1, Json.bool kv.2]).toArray,
+                 Json.arr (fr.2.map fun kv => Json.arr #[str kv.1, Json.str kv.2.toString]).toArray]).toArray)])
   | _ => throw s!"unknown op {op}"
 
 partial def loop (h : IO.FS.Stream) (out : IO.FS.Stream) : IO Unit := do
